@@ -1279,8 +1279,9 @@ pub fn check(prop: &str, tier: &str) -> i32 {
         for m in stats.machinery.iter().take(5) {
             eprintln!("machinery: {m}");
         }
-        let _ = report.finish();
-        return 2;
+        // a confirmed new violation is the verdict even if the machinery also has a complaint
+        let rc = report.finish();
+        return if rc == 1 { 1 } else { 2 };
     }
     report.finish()
 }
